@@ -85,9 +85,19 @@ class RefCond:
         self.consts = {}         # name -> [(value, active Bool)] in definition order
         self.must_reject = []    # z3 Bools: a selected reference without a selected definition / two selected definitions
         self.illformed = False
+        self.stray = []          # conditions under which an included file with a stray #else/#elif/#endif is read
         self.symval = {}         # symbol -> value, for symbols given a value by an unconditional #define
         self.unknowns = 0
-        self._walk(main, z3.BoolVal(True))
+        self.top_active = z3.BoolVal(True)
+        self._walk(main, self.top_active)
+
+    def _stray(self, file_active):
+        """#else / #elif / #endif with no opener *in its own file*: rejected whenever that file is read at all"""
+        if file_active is self.top_active:
+            self.illformed = True           # in the main file: the whole program is ill-formed
+        else:
+            self.stray.append(file_active)
+            self.must_reject.append(file_active)
 
     def val(self, x):
         if x[0] == 'd':
@@ -122,7 +132,7 @@ class RefCond:
                 frames.append([enc, sel, sel])
             elif k in ('elif', 'elift', 'else'):
                 if not frames:
-                    self.illformed = True
+                    self._stray(file_active)
                     return
                 f = frames[-1]
                 t = z3.BoolVal(True) if k == 'else' else self.truth(st)
@@ -131,7 +141,7 @@ class RefCond:
                 f[2] = sel
             elif k == 'endif':
                 if not frames:
-                    self.illformed = True
+                    self._stray(file_active)
                     return
                 frames.pop()
             elif k in ('define', 'definev'):
@@ -238,6 +248,7 @@ class CondShape(PipeShape):
             img_ok = img is not None and len(img) == len(expected) and all(
                 z3.is_true(z3.simplify(b == E.bvval(k))) for b, k in zip(img, expected))
         return [
+            ('C08.else_elif_endif_without_opener_in_an_included_file_is_rejected', z3.Not(z3.Or(*ref.stray)) if ref.stray else z3.BoolVal(True)),
             ('C08.line_contributes_iff_every_enclosing_block_selected_its_branch', A(sel)),
             ('C08.mute_changes_take_effect_iff_selected', A(mut)),
             ('C08.constants_are_defined_by_selected_lines_only', z3.And(z3.Not(must_reject), A(cvals))),
@@ -365,6 +376,14 @@ def shapes(tier, seed):
     S.append(CondShape('hw:include-in-unselected',
                        stmts={'main.asm': [M(1), ('ift', S1), ('include', 'inc.asm'), ('else',), M(2), ('endif',), M(3)],
                               'inc.asm': [M(7), ('ift', S2), M(8), ('endif',)]}))
+    # a conditional chain does not continue into an included file: a stray #else / #elif / #endif there is rejected
+    for nm, stray in {'else': [('else',), M(8)], 'elif': [('elift', S2), M(8)], 'endif': [('endif',), M(8)]}.items():
+        S.append(CondShape(f'hw:include-with-stray-{nm}',
+                           stmts={'main.asm': [M(1), ('ift', S1), M(2), ('include', 'inc.asm'), M(3), ('endif',), M(4)],
+                                  'inc.asm': [M(7)] + stray}, expect=['ok', 'rejected']))
+    S.append(CondShape('hw:include-balanced-inside-block',
+                       stmts={'main.asm': [M(1), ('ift', S1), M(2), ('include', 'inc.asm'), M(3), ('else',), M(5), ('endif',), M(4)],
+                              'inc.asm': [M(7), ('ift', S2), M(8), ('else',), M(9), ('endif',), M(6)]}))
     S.append(CondShape('hw:isa-and-cli-symbols',
                        stmts={'main.asm': [('ifdef', 'GG'), M(1), ('endif',), ('ifdef', 'HH'), M(2), ('elift', S1), M(3),
                                            ('endif',), ('ifndef', 'KK'), M(4), ('endif',)]},
